@@ -290,15 +290,21 @@ def r5(ctx, retsets):
     notify = pdb.enum_value("SERIAL_NOTIFY")
     wb = pdb.enum_value("TR_WOULDBLOCK")
     for name, rv, ty, exp in (("serial notify", 0, notify, 0), ("other pdu", 0, 3, -1), ("timeout", wb, None, 0), ("transport error", -1, None, -1)):
-        def classify(inst, E, st, rv=rv, ty=ty):
+        again = []
+
+        def classify(inst, E, st, rv=rv, ty=ty, again=again):
             if inst.op == "call" and inst.callee == "rtr_receive_pdu":
-                return [([], {inst.ref: flow.av_in(rv)})]
+                if st.get("recv") == "1":
+                    again.append(1)      # the wait is resumed inside the function instead of through the state machine's next round
+                    return flow.KILL
+                return [(["=recv:1"], {inst.ref: flow.av_in(rv)})]
             if inst.op == "call" and inst.callee == "rtr_get_pdu_type" and ty is not None:
                 return [([], {inst.ref: flow.av_in(ty)})]
             return None
         outs, fl = es.count_effects(fn, pdb, classify, retsets)
         rets = {flow.av_single(o["ret"]) for o in outs}
-        ctx.check(rets == {exp}, "C17.R5", "wait-outcome:%s" % name, "%s:%d" % (fn.relfile, fn.line), "returns %s (expected %d)" % (sorted(rets, key=str), exp),
+        resumed = name == "other pdu" and not rets and bool(again)     # a stray PDU is dropped and the wait goes on (with the time left: see above)
+        ctx.check(rets == {exp} or resumed, "C17.R5", "wait-outcome:%s" % name, "%s:%d" % (fn.relfile, fn.line), "returns %s (expected %d)" % (sorted(rets, key=str), exp),
                   key="C17.R5:outcome:%s" % name)
     st = pdb.enum("rtr_socket_state")
     outs = fsm.explore_arm(pdb, st["RTR_ESTABLISHED"], forks={"rtr_wait_for_sync": [-1, 0], "rtr_send_serial_query": [-1, 0]})
